@@ -175,11 +175,20 @@ theorem int_zero_spellings (k : Nat) (neg : Bool) :
   rw [h0]
   simpa [sign] using this
 
-/-- redundant leading zeros of the whole part of a decimal do not change the fixed-point value `from_str` builds
-(sign, digits and fraction kept; `wholeSpelling neg k n` = sign, `k` zeros, digits of `n`) -/
+/-- redundant leading zeros of the whole part of a decimal, positive (`neg = false`) or NEGATIVE (`neg = true`), do not change
+the fixed-point value `from_str` builds (sign, digits and fraction kept; `wholeSpelling neg k n` = sign, `k` zeros, digits of `n`) -/
 theorem decimal_leading_zeros_irrelevant (neg : Bool) (k k' n : Nat) (frac : Str) (hf : frac.all isDigit = true) :
     fixedFromStr (wholeSpelling neg k n ++ '.' :: frac) = fixedFromStr (wholeSpelling neg k' n ++ '.' :: frac) := by
   rw [C04.fixed_normal_form neg k n frac hf, C04.fixed_normal_form neg k' n frac hf]
+
+/-- the negative case (`neg = true` above) spelled out: `-007.5`, `-0007.5` and `-7.5` are the fixed-point value `-7.5`,
+`-010.5` is `-10.5` (a zero inside the digits is kept), while `-00.5` and `-.5` are the negative zero `-0.5` -/
+theorem negative_decimal_examples :
+    fixedFromStr "-007.5".toList = .ok "-7.5".toList ∧ fixedFromStr "-0007.5".toList = .ok "-7.5".toList ∧
+    fixedFromStr "-7.5".toList = .ok "-7.5".toList ∧ fixedFromStr "-010.5".toList = .ok "-10.5".toList ∧
+    fixedFromStr "-00.5".toList = .ok "-0.5".toList ∧ fixedFromStr "-.5".toList = .ok "-0.5".toList ∧
+    wholeSpelling true 2 7 ++ '.' :: ['5'] = "-007.5".toList := by
+  decide +kernel
 
 /-- single-line strings: `'…'` and `"…"` (each with its own quote escaped) read as the same value -/
 theorem quote_style_irrelevant (s : Str) (i j : Nat) (hnl : NL ∉ s) (h1 : GuardS SQ s = true) (h2 : GuardS DQ s = true) :
